@@ -28,11 +28,21 @@ Hypotheses (`HistOK`): |H x| = 32 (crypto.Digest), the genesis rows have distinc
 HISTORY SHARE A TRIE LEAF (`LeafInj`: no collision of the truncated hash on the rows that occur, and no kv boundary-shift pair — known
 finding F2).  Without it the statement is false for the code as it stands: the trie holds a SET, a leaf shared by two boxes is removed
 when one of them is deleted, and whether that happens depends on the commit ranges (replayed on two real ledgers by the harness).
-PARTIAL:
-  * `label_complete_Statement` (every catchpoint round of a crash-free run whose commit ranges each contain at most one first-stage
-    round gets its label) is NOT proved; `commit_lands_on_first_stage_partial` proves the step it rests on: such a commit ends on the
-    first-stage round and schedules finishFirstStage for it.  The harness checks completeness on every replica (the model predicts the
-    exact set of labels, including the ones a sparse schedule skips).
+  * `label_complete`               COMPLETENESS: in every interval-compatible run (`Compat`: every commit that takes effect covers at most
+                                   one first-stage round — `multi = false` — and every restart / crash comes up with tracking
+                                   enabled; crashes at ANY point of the post-commit or recovery work, restarts, trie housekeeping and
+                                   partial flushes allowed), once the pending work is done EVERY catchpoint round r with lookback < r ≤
+                                   DB round, r ≡ 0 mod interval, has a label.  Needs only 0 < lookback (the real lookback is never 0),
+                                   no hypothesis on the hash or the history.  `label_complete_exact`: with `HistOK` that label is
+                                   `Hist.label hist r`.  `label_complete_crashfree`: the crash-free formulation
+                                   (`label_complete_Statement`, compatibility spelled out per commit event).  Built on
+                                   `commit_lands_on_first_stage_partial` / `first_stage_exact` plus `fs_in_range_is_end` (with
+                                   `multi = false` the only first-stage round in a commit range is the one the commit ends on) and
+                                   `mem_catchpointRounds` (calculateCatchpointRounds misses no catchpoint round of the range).
+                                   Both hypotheses are necessary (examples at the end): a sparse range skips a catchpoint by design,
+                                   and so does a lifetime without tracking.
+NOT covered by completeness: runs with lifetimes in which tracking is disabled (catchpoints around such a period are skipped by design;
+soundness — `labels_sound`, `label_schedule_independent` — does cover them).
 Not modelled: how the tracker DB computes totals / the state-proof, online-accounts and online-round-params hashes of a round (data of
 the history here); catchpoint FILE generation; several consensus versions in one history.
 -/
@@ -479,16 +489,543 @@ theorem commit_lands_on_first_stage_partial (H : Bytes → Bytes) (p : Params) (
   intro a ha1 ha2
   exact h4 a ha1 (by omega)
 
-/-- the completeness half of the property (NOT proved): in a crash-free run whose commits never skip a first-stage round
-(`multi = false`) and whose post-commit work is always completed, every catchpoint round up to the DB round gets a label. -/
+/-! ### completeness: every catchpoint round of an interval-compatible schedule gets its label -/
+
+theorem minFS_eq {ob re L : Nat} (h : re ≤ ob + 1 + L) : minFS ob re L = ob + 1 := by
+  unfold minFS
+  split
+  · omega
+  · rfl
+
+/-- the smallest first-stage round ≥ m is what calculateFirstStageRounds calls `first` -/
+theorem first_le_of_fs {m L I a : Nat} (hI : 0 < I) (hm : m ≤ a) (hmd : (a + L) % I = 0) :
+    (m + L + I - 1) / I * I ≤ a + L := by
+  have h2 : (a + L) / I * I = a + L := by
+    have := Nat.div_add_mod (a + L) I
+    rw [hmd, Nat.add_zero, Nat.mul_comm] at this
+    exact this
+  have h1 : (m + L + I - 1) / I ≤ (a + L) / I := by
+    have : (m + L + I - 1) / I < (a + L) / I + 1 := by
+      rw [Nat.div_lt_iff_lt_mul hI, Nat.add_mul, h2]
+      omega
+    omega
+  calc (m + L + I - 1) / I * I ≤ (a + L) / I * I := Nat.mul_le_mul_right _ h1
+    _ = a + L := h2
+
+/-- with `multi = false` the only first-stage round a commit range can contain is the one the commit ends on -/
+theorem fs_in_range_is_end {ob off re I L a : Nat} (hI : 0 < I) (hre0 : re ≠ 0) (hre : re ≤ ob + 1 + L)
+    (hmulti : (calcFirstStageRounds ob off re I L).multi = false)
+    (ha1 : ob < a) (ha2 : a ≤ ob + (calcFirstStageRounds ob off re I L).newOffset) (hmd : (a + L) % I = 0) :
+    (calcFirstStageRounds ob off re I L).has = true ∧ a = ob + (calcFirstStageRounds ob off re I L).newOffset := by
+  have hle := calc_newOffset_le ob off re I L
+  rw [calc_unfold] at hmulti ha2 hle ⊢
+  have hg : ¬(re = 0 ∨ I = 0) := by omega
+  rw [if_neg hg] at hmulti ha2 hle ⊢
+  have hz := first_le_of_fs (m := ob + 1) (L := L) hI (by omega) hmd
+  have hzlo : ob + 1 + L ≤ (ob + 1 + L + I - 1) / I * I := by
+    have h1 := Nat.div_add_mod (ob + 1 + L + I - 1) I
+    have h2 := Nat.mod_lt (ob + 1 + L + I - 1) hI
+    rw [Nat.mul_comm] at h1
+    generalize (ob + 1 + L + I - 1) / I * I = z at *
+    omega
+  have hmax : ∀ b, b ≤ ob + off → (b + L) % I = 0 → b + L ≤ (ob + off + L) / I * I := by
+    intro b hb hbd
+    have h1 : (b + L) / I ≤ (ob + off + L) / I := Nat.div_le_div_right (by omega)
+    have h2 : (b + L) / I * I = b + L := by
+      have := Nat.div_add_mod (b + L) I
+      rw [hbd, Nat.add_zero, Nat.mul_comm] at this
+      exact this
+    calc b + L = (b + L) / I * I := h2.symm
+      _ ≤ (ob + off + L) / I * I := Nat.mul_le_mul_right _ h1
+  simp only [firstR, lastR, minFS_eq hre] at hmulti ha2 hle ⊢
+  generalize (ob + 1 + L + I - 1) / I * I = z at *
+  by_cases hfl : ((z : Nat) : Int) - (L : Int) ≤ (((ob + off + L) / I * I : Nat) : Int) - (L : Int)
+  · rw [if_pos hfl] at hmulti ha2 hle ⊢
+    simp only [decide_eq_false_iff_not] at hmulti
+    simp only at ha2 hle ⊢
+    have hy := hmax a (by omega) hmd
+    generalize (ob + off + L) / I * I = y at *
+    refine ⟨by first | rfl | trivial, ?_⟩
+    omega
+  · rw [if_neg hfl] at ha2
+    simp only at ha2
+    have hy := hmax a ha2 hmd
+    generalize (ob + off + L) / I * I = y at *
+    omega
+
+theorem newOffset_pos {ob off re I L : Nat} (hoff : 1 ≤ off) : 1 ≤ (calcFirstStageRounds ob off re I L).newOffset := by
+  cases hh : (calcFirstStageRounds ob off re I L).has with
+  | true => exact (first_stage_exact ob off re I L hh).2.1
+  | false =>
+    rw [calc_unfold] at hh ⊢
+    split at hh
+    · rename_i hg; rw [if_pos hg]; exact hoff
+    · rename_i hg
+      rw [if_neg hg]
+      split at hh
+      · simp at hh
+      · rename_i hfl; rw [if_neg hfl]; exact hoff
+
+/-- calculateCatchpointRounds is complete: every multiple of the interval in the range, above the lookback, is listed -/
+theorem mem_catchpointRounds {ob off L I r : Nat} (hI : 0 < I) (hL : L < r) (h1 : ob < r) (h2 : r ≤ ob + off) (hmd : r % I = 0) :
+    r ∈ catchpointRounds ob off L I := by
+  rw [catchpointRounds_unfold, if_neg (by omega)]
+  have hmn : cpMin ob L ≤ r := by unfold cpMin; split <;> omega
+  have hk : r / I * I = r := by
+    have := Nat.div_add_mod r I
+    rw [hmd, Nat.add_zero, Nat.mul_comm] at this
+    exact this
+  have hlo : (cpMin ob L + I - 1) / I ≤ r / I := by
+    have : (cpMin ob L + I - 1) / I < r / I + 1 := by
+      rw [Nat.div_lt_iff_lt_mul hI, Nat.add_mul, hk]
+      omega
+    omega
+  have hhi : r / I ≤ (ob + off) / I := Nat.div_le_div_right h2
+  rw [if_neg (by omega)]
+  refine List.mem_map.2 ⟨r / I - (cpMin ob L + I - 1) / I, List.mem_range.2 (by omega), ?_⟩
+  have : (cpMin ob L + I - 1) / I + (r / I - (cpMin ob L + I - 1) / I) = r / I := by omega
+  rw [this, hk]
+
+theorem blockHash_isSome {h : Hist} {r : Nat} (h1 : 1 ≤ r) (h2 : r ≤ h.rounds.length) : ∃ bh, h.blockHash r = some bh := by
+  cases r with
+  | zero => omega
+  | succ k =>
+    have hk : k < h.rounds.length := by omega
+    exact ⟨(h.rounds[k]).blockHash, by simp [Hist.blockHash, List.getElem?_eq_getElem hk]⟩
+
+theorem mem_cpHashes_of {h : Hist} {rs : List Nat} {r : Nat} {bh : Bytes} (hr : r ∈ rs) (hb : h.blockHash r = some bh) :
+    (r, bh) ∈ cpHashes h rs := by
+  unfold cpHashes
+  exact List.mem_filterMap.2 ⟨r, hr, by simp [hb]⟩
+
+/-! lookups in the first-stage table -/
+
+theorem find?_filter_of_imp {α : Type} (p q : α → Bool) (hpq : ∀ x, p x = true → q x = true) :
+    ∀ l : List α, (l.filter q).find? p = l.find? p
+  | [] => rfl
+  | x :: xs => by
+    by_cases hq : q x = true
+    · rw [List.filter_cons_of_pos hq]
+      simp only [List.find?_cons]
+      cases p x <;> simp [find?_filter_of_imp p q hpq xs]
+    · have hp : p x = false := by
+        cases hpx : p x with
+        | false => rfl
+        | true => exact absurd (hpq x hpx) hq
+      rw [List.filter_cons_of_neg hq, List.find?_cons, hp]
+      exact find?_filter_of_imp p q hpq xs
+
+theorem lookupInfo_insert (l : List (Nat × Info)) (a a' : Nat) (i : Info) :
+    lookupInfo (insertInfo l a i) a' = if a' = a then some i else lookupInfo l a' := by
+  unfold lookupInfo insertInfo
+  by_cases h : a' = a
+  · subst h; simp
+  · rw [if_neg h, List.find?_cons]
+    have : decide ((a, i).1 = a') = false := by simpa using fun e : a = a' => h e.symm
+    rw [this]
+    simp only
+    rw [find?_filter_of_imp]
+    intro x hx
+    simp only [decide_eq_true_eq] at hx ⊢
+    omega
+
+theorem lookupInfo_prune (l : List (Nat × Info)) (d a : Nat) (h : d < a) :
+    lookupInfo (l.filter fun x => decide (d < x.1)) a = lookupInfo l a := by
+  unfold lookupInfo
+  rw [find?_filter_of_imp]
+  intro x hx
+  simp only [decide_eq_true_eq] at hx ⊢
+  omega
+
+/-! pending work: every `cp` comes before the `prune` of the same batch -/
+
+def NoCpAfterPrune : List Act → Prop
+  | [] => True
+  | .prune :: rest => (∀ r bh, Act.cp r bh ∉ rest) ∧ NoCpAfterPrune rest
+  | _ :: rest => NoCpAfterPrune rest
+
+theorem noCp_of_no_prune : ∀ (l : List Act), Act.prune ∉ l → NoCpAfterPrune l ∧ NoCpAfterPrune (l ++ [Act.prune])
+  | [], _ => ⟨trivial, by simp [NoCpAfterPrune]⟩
+  | a :: rest, h => by
+    have hr : Act.prune ∉ rest := fun hm => h (List.mem_cons_of_mem _ hm)
+    have ha : a ≠ Act.prune := fun e => h (e ▸ List.mem_cons_self ..)
+    obtain ⟨h1, h2⟩ := noCp_of_no_prune rest hr
+    cases a with
+    | prune => exact absurd rfl ha
+    | evict => exact ⟨h1, h2⟩
+    | fs => exact ⟨h1, h2⟩
+    | cp _ _ => exact ⟨h1, h2⟩
+
+theorem noCp_tail {a : Act} {rest : List Act} (h : NoCpAfterPrune (a :: rest)) : NoCpAfterPrune rest := by
+  cases a with
+  | prune => exact h.2
+  | evict => exact h
+  | fs => exact h
+  | cp _ _ => exact h
+
+/-! the schedules the theorem is about -/
+
+/-- an event the completeness theorem admits in state `σ`: a commit that takes effect must not skip a first-stage round
+(`multi = false`: its range contains at most one), a restart / crash must come up with tracking enabled -/
+def EvOK (p : Params) (σ : Tr) : Ev → Prop
+  | .commit t => (σ.pending = [] ∧ σ.dbRound < t ∧ t ≤ σ.latest ∧ 0 < p.interval) →
+      (calcFirstStageRounds σ.dbRound (t - σ.dbRound) σ.reenable p.interval p.lookback).multi = false
+  | .crash en => en = true
+  | _ => True
+
+instance instDecEvOK (p : Params) (σ : Tr) : (e : Ev) → Decidable (EvOK p σ e)
+  | .commit t => inferInstanceAs (Decidable ((σ.pending = [] ∧ σ.dbRound < t ∧ t ≤ σ.latest ∧ 0 < p.interval) →
+      (calcFirstStageRounds σ.dbRound (t - σ.dbRound) σ.reenable p.interval p.lookback).multi = false))
+  | .crash en => inferInstanceAs (Decidable (en = true))
+  | .block => isTrue trivial
+  | .tick => isTrue trivial
+  | .trie _ => isTrue trivial
+
+/-- interval-compatible schedule (crashes and restarts allowed, tracking always enabled) -/
+def Compat (H : Bytes → Bytes) (p : Params) (h : Hist) : Tr → List Ev → Prop
+  | _, [] => True
+  | σ, e :: es => EvOK p σ e ∧ Compat H p h (step H p h σ e) es
+
+instance instDecCompat (H : Bytes → Bytes) (p : Params) (h : Hist) : (σ : Tr) → (evs : List Ev) → Decidable (Compat H p h σ evs)
+  | _, [] => isTrue trivial
+  | σ, e :: es =>
+    have := instDecCompat H p h (step H p h σ e) es
+    inferInstanceAs (Decidable (EvOK p σ e ∧ Compat H p h (step H p h σ e) es))
+
+/-- the completeness invariant -/
+structure Cmp (p : Params) (h : Hist) (σ : Tr) : Prop where
+  latest_le : σ.latest ≤ h.rounds.length
+  db_le : σ.dbRound ≤ σ.latest
+  en : σ.enabled = true
+  re_le : σ.reenable ≤ σ.dbRound + 1 + p.lookback
+  re_ne : σ.dbRound < σ.latest → σ.reenable ≠ 0
+  lb : σ.unfinished ≠ [] → σ.lookbackState = p.lookback
+  wfs_pend : σ.writingFS = true → Act.fs ∈ σ.pending
+  shape : NoCpAfterPrune σ.pending
+  unf_pend : ∀ r bh, (r, bh) ∈ σ.unfinished → Act.cp r bh ∈ σ.pending
+  /-- every first-stage round that is not yet prunable has its record, or is the DB round with finishFirstStage outstanding -/
+  fs_win : ∀ a, 1 ≤ a → (a + p.lookback) % p.interval = 0 → a ≤ σ.dbRound → σ.dbRound < a + p.lookback →
+    (lookupInfo σ.firstStage a).isSome = true ∨ (σ.writingFS = true ∧ σ.dbRound = a)
+  /-- every catchpoint round up to the DB round has its label, or is recorded as unfinished with its first-stage record at hand -/
+  cp_done : ∀ r, p.lookback < r → r % p.interval = 0 → r ≤ σ.dbRound →
+    (∃ s, (r, s) ∈ σ.out) ∨ (∃ bh, (r, bh) ∈ σ.unfinished ∧ (lookupInfo σ.firstStage (r - p.lookback)).isSome = true)
+
+theorem cmp_init (H : Bytes → Bytes) (p : Params) (h : Hist) : Cmp p h (Tr.init H h) where
+  latest_le := Nat.zero_le _
+  db_le := Nat.le_refl _
+  en := rfl
+  re_le := Nat.zero_le _
+  re_ne := fun hlt => by simp [Tr.init] at hlt
+  lb := fun hne => by simp [Tr.init] at hne
+  wfs_pend := fun hw => by simp [Tr.init] at hw
+  shape := trivial
+  unf_pend := fun r bh hm => by simp [Tr.init] at hm
+  fs_win := fun a h1 _ h3 _ => by simp only [Tr.init] at h3; omega
+  cp_done := fun r h1 _ h3 => by simp only [Tr.init] at h3; omega
+
+theorem mem_tail_of_ne {α : Type} {x a : α} {rest : List α} (hm : x ∈ a :: rest) (hne : x ≠ a) : x ∈ rest := by
+  rcases List.mem_cons.1 hm with e | hm
+  · exact absurd e hne
+  · exact hm
+
+/-- one post-commit / recovery action -/
+theorem cmp_runAct (H : Bytes → Bytes) {p : Params} {h : Hist} (τ : Tr) (a : Act)
+    (c : Cmp p h { τ with pending := a :: τ.pending }) : Cmp p h (runAct H p τ a) := by
+  have hs : NoCpAfterPrune (a :: τ.pending) := c.shape
+  cases a with
+  | evict =>
+    exact { latest_le := c.latest_le, db_le := c.db_le, en := c.en, re_le := c.re_le, re_ne := c.re_ne, lb := c.lb,
+            wfs_pend := fun hw => mem_tail_of_ne (c.wfs_pend hw) (by simp), shape := noCp_tail hs,
+            unf_pend := fun r bh hm => mem_tail_of_ne (c.unf_pend r bh hm) (by simp),
+            fs_win := c.fs_win, cp_done := c.cp_done }
+  | fs =>
+    refine { latest_le := c.latest_le, db_le := c.db_le, en := c.en, re_le := c.re_le, re_ne := c.re_ne, lb := c.lb,
+             wfs_pend := fun hw => by simp [runAct] at hw, shape := noCp_tail hs,
+             unf_pend := fun r bh hm => mem_tail_of_ne (c.unf_pend r bh hm) (by simp), fs_win := ?_, cp_done := ?_ }
+    · intro a h1 h2 h3 h4
+      left
+      show (lookupInfo (insertInfo τ.firstStage τ.dbRound _) a).isSome = true
+      rw [lookupInfo_insert]
+      by_cases ha : a = τ.dbRound
+      · simp [ha]
+      · rw [if_neg ha]
+        rcases c.fs_win a h1 h2 h3 h4 with hl | ⟨_, hd⟩
+        · exact hl
+        · exact absurd hd.symm ha
+    · intro r h1 h2 h3
+      rcases c.cp_done r h1 h2 h3 with ho | ⟨bh, hm, hl⟩
+      · exact Or.inl ho
+      · refine Or.inr ⟨bh, hm, ?_⟩
+        show (lookupInfo (insertInfo τ.firstStage τ.dbRound _) (r - p.lookback)).isSome = true
+        rw [lookupInfo_insert]
+        split
+        · rfl
+        · exact hl
+  | cp r' bh' =>
+    have hunf : ∀ r bh, (r, bh) ∈ τ.unfinished.filter (fun x => x.1 ≠ r') → Act.cp r bh ∈ τ.pending := by
+      intro r bh hm
+      obtain ⟨hm1, hm2⟩ := List.mem_filter.1 hm
+      have hne : r ≠ r' := by simpa using hm2
+      exact mem_tail_of_ne (c.unf_pend r bh hm1) (by simp [hne])
+    have hlb : τ.unfinished.filter (fun x => x.1 ≠ r') ≠ [] → τ.lookbackState = p.lookback := by
+      intro hne
+      apply c.lb
+      intro e
+      apply hne
+      show List.filter _ τ.unfinished = []
+      rw [show τ.unfinished = [] from e]
+      rfl
+    simp only [runAct]
+    cases hli : lookupInfo τ.firstStage (r' - p.lookback) with
+    | none =>
+      refine { latest_le := c.latest_le, db_le := c.db_le, en := c.en, re_le := c.re_le, re_ne := c.re_ne, lb := hlb,
+               wfs_pend := fun hw => mem_tail_of_ne (c.wfs_pend hw) (by simp), shape := noCp_tail hs,
+               unf_pend := hunf, fs_win := c.fs_win, cp_done := ?_ }
+      intro r h1 h2 h3
+      rcases c.cp_done r h1 h2 h3 with ho | ⟨bh, hm, hl⟩
+      · exact Or.inl ho
+      · by_cases hr : r = r'
+        · subst hr
+          have hl' : (lookupInfo τ.firstStage (r - p.lookback)).isSome = true := hl
+          rw [hli] at hl'
+          cases hl'
+        · exact Or.inr ⟨bh, List.mem_filter.2 ⟨hm, by simpa using hr⟩, hl⟩
+    | some info =>
+      refine { latest_le := c.latest_le, db_le := c.db_le, en := c.en, re_le := c.re_le, re_ne := c.re_ne, lb := hlb,
+               wfs_pend := fun hw => mem_tail_of_ne (c.wfs_pend hw) (by simp), shape := noCp_tail hs,
+               unf_pend := hunf, fs_win := c.fs_win, cp_done := ?_ }
+      intro r h1 h2 h3
+      rcases c.cp_done r h1 h2 h3 with ⟨s, ho⟩ | ⟨bh, hm, hl⟩
+      · exact Or.inl ⟨s, List.mem_append_left _ ho⟩
+      · by_cases hr : r = r'
+        · subst hr
+          exact Or.inl ⟨_, List.mem_append_right _ (List.mem_singleton.2 rfl)⟩
+        · exact Or.inr ⟨bh, List.mem_filter.2 ⟨hm, by simpa using hr⟩, hl⟩
+  | prune =>
+    have hnounf : ∀ r bh, (r, bh) ∈ τ.unfinished → False := fun r bh hm =>
+      hs.1 r bh (mem_tail_of_ne (c.unf_pend r bh hm) (by simp))
+    simp only [runAct]
+    split
+    · refine { latest_le := c.latest_le, db_le := c.db_le, en := c.en, re_le := c.re_le, re_ne := c.re_ne, lb := c.lb,
+               wfs_pend := fun hw => mem_tail_of_ne (c.wfs_pend hw) (by simp), shape := hs.2,
+               unf_pend := fun r bh hm => absurd hm (fun hm => hnounf r bh hm), fs_win := ?_, cp_done := ?_ }
+      · intro a h1 h2 h3 h4
+        have h4' : τ.dbRound < a + p.lookback := h4
+        rcases c.fs_win a h1 h2 h3 h4 with hl | hw
+        · left
+          show (lookupInfo (τ.firstStage.filter _) a).isSome = true
+          rw [lookupInfo_prune _ _ _ (by omega)]
+          exact hl
+        · exact Or.inr hw
+      · intro r h1 h2 h3
+        rcases c.cp_done r h1 h2 h3 with ho | ⟨bh, hm, _⟩
+        · exact Or.inl ho
+        · exact absurd hm (fun hm => hnounf r bh hm)
+    · exact { latest_le := c.latest_le, db_le := c.db_le, en := c.en, re_le := c.re_le, re_ne := c.re_ne, lb := c.lb,
+              wfs_pend := fun hw => mem_tail_of_ne (c.wfs_pend hw) (by simp), shape := hs.2,
+              unf_pend := fun r bh hm => absurd hm (fun hm => hnounf r bh hm), fs_win := c.fs_win, cp_done := c.cp_done }
+
+theorem cmp_step (H : Bytes → Bytes) {p : Params} {h : Hist} (hL : 0 < p.lookback) {σ : Tr} (c : Cmp p h σ) (e : Ev)
+    (hok : EvOK p σ e) : Cmp p h (step H p h σ e) := by
+  cases e with
+  | block =>
+    simp only [step]
+    split
+    · rename_i hlt
+      refine { latest_le := hlt, db_le := Nat.le_succ_of_le c.db_le, en := c.en, re_le := ?_, re_ne := ?_, lb := c.lb,
+               wfs_pend := c.wfs_pend, shape := c.shape, unf_pend := c.unf_pend, fs_win := c.fs_win, cp_done := c.cp_done }
+      · show (if σ.reenable = 0 then σ.latest + 1 + p.lookback else σ.reenable) ≤ σ.dbRound + 1 + p.lookback
+        split
+        · rename_i h0
+          have : ¬ σ.dbRound < σ.latest := fun hlt' => c.re_ne hlt' h0
+          have := c.db_le
+          omega
+        · exact c.re_le
+      · intro _
+        show (if σ.reenable = 0 then σ.latest + 1 + p.lookback else σ.reenable) ≠ 0
+        split
+        · omega
+        · assumption
+    · exact c
+  | commit t =>
+    simp only [step]
+    split
+    · rename_i hg
+      have hmulti : (calcFirstStageRounds σ.dbRound (t - σ.dbRound) σ.reenable p.interval p.lookback).multi = false := hok hg
+      obtain ⟨hp, hdb, htl, hI⟩ := hg
+      simp only [c.en, if_true]
+      have hre0 := c.re_ne (by omega)
+      have hle := calc_newOffset_le σ.dbRound (t - σ.dbRound) σ.reenable p.interval p.lookback
+      have hpos := newOffset_pos (ob := σ.dbRound) (off := t - σ.dbRound) (re := σ.reenable) (I := p.interval) (L := p.lookback) (by omega)
+      have hrange : ∀ a, σ.dbRound < a →
+          a ≤ σ.dbRound + (calcFirstStageRounds σ.dbRound (t - σ.dbRound) σ.reenable p.interval p.lookback).newOffset →
+          (a + p.lookback) % p.interval = 0 →
+          (calcFirstStageRounds σ.dbRound (t - σ.dbRound) σ.reenable p.interval p.lookback).has = true ∧
+            a = σ.dbRound + (calcFirstStageRounds σ.dbRound (t - σ.dbRound) σ.reenable p.interval p.lookback).newOffset :=
+        fun a => fs_in_range_is_end hI hre0 c.re_le hmulti
+      have hnofs : σ.writingFS = false := by
+        cases hw : σ.writingFS with
+        | false => rfl
+        | true => have := c.wfs_pend hw; rw [hp] at this; cases this
+      have hnounf : σ.unfinished = [] := by
+        cases hu : σ.unfinished with
+        | nil => rfl
+        | cons x xs =>
+          have := c.unf_pend x.1 x.2 (by rw [hu]; exact List.mem_cons_self ..)
+          rw [hp] at this
+          cases this
+      generalize calcFirstStageRounds σ.dbRound (t - σ.dbRound) σ.reenable p.interval p.lookback = fs at *
+      have hlat := c.latest_le
+      refine { latest_le := c.latest_le, db_le := by simp only; omega, en := rfl, re_le := by simp only; have := c.re_le; omega,
+               re_ne := fun _ => hre0, lb := fun _ => rfl, wfs_pend := ?_, shape := ?_, unf_pend := ?_, fs_win := ?_, cp_done := ?_ }
+      · intro hw
+        simp only [hnofs, Bool.false_or] at hw
+        simp [hw]
+      · refine (noCp_of_no_prune _ ?_).2
+        intro hm
+        simp only [List.mem_append, List.mem_cons, List.mem_map, List.not_mem_nil, or_false] at hm
+        rcases hm with (hm | hm) | hm
+        · cases hm
+        · split at hm <;> simp at hm
+        · obtain ⟨x, _, hx⟩ := hm; cases hx
+      · intro r bh hm
+        simp only [hnounf, List.nil_append] at hm
+        exact List.mem_append_left _ (List.mem_append_right _ (List.mem_map.2 ⟨(r, bh), hm, rfl⟩))
+      · intro a h1 h2 h3 h4
+        simp only at h3 h4
+        by_cases hao : a ≤ σ.dbRound
+        · rcases c.fs_win a h1 h2 hao (by omega) with hl | ⟨hw, _⟩
+          · exact Or.inl hl
+          · rw [hnofs] at hw; cases hw
+        · obtain ⟨hh, ha⟩ := hrange a (by omega) h3 h2
+          exact Or.inr ⟨by simp [hh], ha.symm⟩
+      · intro r h1 h2 h3
+        simp only at h3
+        by_cases hro : r ≤ σ.dbRound
+        · rcases c.cp_done r h1 h2 hro with ho | ⟨bh, hm, _⟩
+          · exact Or.inl ho
+          · rw [hnounf] at hm; cases hm
+        · obtain ⟨bh, hb⟩ := blockHash_isSome (h := h) (r := r) (by omega) (by omega)
+          have hmem := mem_cpHashes_of (mem_catchpointRounds hI h1 (by omega) h3 h2) hb
+          refine Or.inr ⟨bh, List.mem_append_right _ hmem, ?_⟩
+          have hmod : (r - p.lookback + p.lookback) % p.interval = 0 := by rw [Nat.sub_add_cancel (by omega)]; exact h2
+          have ha_le : r - p.lookback ≤ σ.dbRound := by
+            rcases Nat.lt_or_ge σ.dbRound (r - p.lookback) with hc | hc
+            · obtain ⟨_, ha⟩ := hrange (r - p.lookback) hc (by omega) hmod
+              omega
+            · exact hc
+          rcases c.fs_win (r - p.lookback) (by omega) hmod ha_le (by omega) with hl | ⟨hw, _⟩
+          · exact hl
+          · rw [hnofs] at hw; cases hw
+    · exact c
+  | tick =>
+    simp only [step]
+    cases hp : σ.pending with
+    | nil => simp only; exact c
+    | cons a rest =>
+      simp only
+      have hσ : ({ ({ σ with pending := rest } : Tr) with pending := a :: ({ σ with pending := rest } : Tr).pending } : Tr) = σ := by
+        cases σ
+        simp only at hp
+        subst hp
+        rfl
+      exact cmp_runAct H { σ with pending := rest } a (by rw [hσ]; exact c)
+  | crash en =>
+    have hen : en = true := hok
+    subst hen
+    simp only [step]
+    refine { latest_le := c.latest_le, db_le := c.db_le, en := rfl, re_le := ?_, re_ne := ?_, lb := c.lb, wfs_pend := ?_, shape := ?_,
+             unf_pend := ?_, fs_win := c.fs_win, cp_done := c.cp_done }
+    · show (if σ.dbRound < σ.latest then σ.dbRound + 1 + p.lookback else 0) ≤ σ.dbRound + 1 + p.lookback
+      split <;> omega
+    · intro hlt
+      show (if σ.dbRound < σ.latest then σ.dbRound + 1 + p.lookback else 0) ≠ 0
+      rw [if_pos hlt]; omega
+    · intro hw
+      have hw' : σ.writingFS = true := hw
+      simp [recoveryActs, hw']
+    · simp only [recoveryActs]
+      generalize hF : (if σ.writingFS = true then [Act.fs] else []) = F
+      have hfs : Act.prune ∉ F := by rw [← hF]; split <;> simp
+      have hcps : Act.prune ∉ σ.unfinished.map (fun x => Act.cp x.1 x.2) := by
+        intro hm; obtain ⟨x, _, hx⟩ := List.mem_map.1 hm; cases hx
+      by_cases h0 : σ.lookbackState = 0
+      · rw [if_pos h0, List.append_nil]; exact (noCp_of_no_prune _ hfs).1
+      · rw [if_neg h0]
+        by_cases h1 : σ.lookbackState ≤ σ.dbRound
+        · rw [if_pos h1, ← List.append_assoc]
+          exact (noCp_of_no_prune _ (by simp only [List.mem_append, not_or]; exact ⟨hfs, hcps⟩)).2
+        · rw [if_neg h1, List.append_nil]
+          exact (noCp_of_no_prune _ (by simp only [List.mem_append, not_or]; exact ⟨hfs, hcps⟩)).1
+    · intro r bh hm
+      have hlb := c.lb (List.ne_nil_of_mem hm)
+      simp only [recoveryActs]
+      have hne : ¬ σ.lookbackState = 0 := by rw [hlb]; omega
+      simp only [hne, if_false]
+      exact List.mem_append_right _ (List.mem_append_left _ (List.mem_map.2 ⟨(r, bh), hm, rfl⟩))
+  | trie op =>
+    exact { latest_le := c.latest_le, db_le := c.db_le, en := c.en, re_le := c.re_le, re_ne := c.re_ne, lb := c.lb,
+            wfs_pend := c.wfs_pend, shape := c.shape, unf_pend := c.unf_pend, fs_win := c.fs_win, cp_done := c.cp_done }
+
+theorem cmp_run (H : Bytes → Bytes) {p : Params} {h : Hist} (hL : 0 < p.lookback) :
+    ∀ (evs : List Ev) {σ : Tr}, Cmp p h σ → Compat H p h σ evs → Cmp p h (run H p h σ evs)
+  | [], _, c, _ => c
+  | e :: es, _, c, hc => cmp_run H hL es (cmp_step H hL c e hc.1) hc.2
+
+/-- **C14, completeness.** In every interval-compatible run — every commit that takes effect covers at most one first-stage round;
+crashes (at any point of the post-commit / recovery work) and restarts are allowed, tracking stays enabled — once the pending work is
+done EVERY catchpoint round up to the tracker DB round has a label. -/
+theorem label_complete (H : Bytes → Bytes) (p : Params) (h : Hist) (hL : 0 < p.lookback) (evs : List Ev)
+    (hc : Compat H p h (Tr.init H h) evs) :
+    let σ := run H p h (Tr.init H h) evs
+    σ.pending = [] → ∀ r, p.lookback < r → r ≤ σ.dbRound → r % p.interval = 0 → ∃ s, (r, s) ∈ σ.out := by
+  intro σ hp r h1 h2 h3
+  have c := cmp_run H hL evs (cmp_init H p h) hc
+  rcases c.cp_done r h1 h3 h2 with ho | ⟨bh, hm, _⟩
+  · exact ho
+  · have := c.unf_pend r bh hm
+    rw [show (run H p h (Tr.init H h) evs).pending = [] from hp] at this
+    cases this
+
+/-- … and with the hypotheses of `labels_sound` that label is the one the history determines -/
+theorem label_complete_exact {H : Bytes → Bytes} (p : Params) {h : Hist} (ok : HistOK H h) (hL : 0 < p.lookback) (evs : List Ev)
+    (hc : Compat H p h (Tr.init H h) evs) (hp : (run H p h (Tr.init H h) evs).pending = [])
+    (r : Nat) (h1 : p.lookback < r) (h2 : r ≤ (run H p h (Tr.init H h) evs).dbRound) (h3 : r % p.interval = 0) :
+    ∃ s, h.label H p r = some s ∧ (r, s) ∈ labels H p h evs := by
+  obtain ⟨s, hs⟩ := label_complete H p h hL evs hc hp r h1 h2 h3
+  exact ⟨s, labels_sound p ok evs r s hs, hs⟩
+
+/-- the crash-free formulation with the compatibility condition spelled out per commit event -/
 def label_complete_Statement (H : Bytes → Bytes) (p : Params) (h : Hist) : Prop :=
-  ∀ evs : List Ev, (∀ e ∈ evs, ∀ en, e ≠ Ev.crash en) →
+  0 < p.lookback → ∀ evs : List Ev, (∀ e ∈ evs, ∀ en, e ≠ Ev.crash en) →
     let σ := run H p h (Tr.init H h) evs
     σ.pending = [] →
     (∀ pre t post, evs = pre ++ Ev.commit t :: post →
       let τ := run H p h (Tr.init H h) pre
       (calcFirstStageRounds τ.dbRound (t - τ.dbRound) τ.reenable p.interval p.lookback).multi = false) →
-    ∀ r, 2 * p.lookback < r → r ≤ σ.dbRound → r % p.interval = 0 → ∃ s, (r, s) ∈ σ.out
+    ∀ r, p.lookback < r → r ≤ σ.dbRound → r % p.interval = 0 → ∃ s, (r, s) ∈ σ.out
+
+theorem compat_of_decomp (H : Bytes → Bytes) (p : Params) (h : Hist) : ∀ (evs : List Ev) (σ₀ : Tr),
+    (∀ e ∈ evs, ∀ en, e ≠ Ev.crash en) →
+    (∀ pre t post, evs = pre ++ Ev.commit t :: post →
+      (calcFirstStageRounds (run H p h σ₀ pre).dbRound (t - (run H p h σ₀ pre).dbRound) (run H p h σ₀ pre).reenable
+        p.interval p.lookback).multi = false) →
+    Compat H p h σ₀ evs
+  | [], _, _, _ => trivial
+  | e :: es, σ₀, hnc, hm => by
+    refine ⟨?_, compat_of_decomp H p h es (step H p h σ₀ e) (fun e' he' => hnc e' (List.mem_cons_of_mem _ he')) ?_⟩
+    · cases e with
+      | commit t => exact fun _ => hm [] t es rfl
+      | crash en => exact absurd rfl (hnc _ (List.mem_cons_self ..) en)
+      | block => trivial
+      | tick => trivial
+      | trie _ => trivial
+    · intro pre t post he
+      exact hm (e :: pre) t post (by rw [he]; rfl)
+
+theorem label_complete_crashfree (H : Bytes → Bytes) (p : Params) (h : Hist) : label_complete_Statement H p h := by
+  intro hL evs hnc σ hp hm
+  exact label_complete H p h hL evs (compat_of_decomp H p h evs _ hnc hm) hp
 
 /-! ### non-vacuity: a concrete history, hash and schedules that meet the hypotheses and create labels -/
 
@@ -555,5 +1092,38 @@ example : (labels toyH exParams exHist exSchedC).map Prod.fst = [4] ∧
 
 example : labels toyH exParams exHist exSchedA = labels toyH exParams exHist exSchedB :=
   label_sequences_equal exParams exHist_ok _ _ (by decide)
+
+/-! non-vacuity and necessity of the hypotheses of `label_complete` -/
+
+/-- both example schedules — round by round, and with spanning ranges, a crash before finishFirstStage, a crash before
+finishCatchpoint and trie housekeeping — are interval-compatible, end with no pending work at DB round 4 … -/
+example : Compat toyH exParams exHist (Tr.init toyH exHist) exSchedA ∧ Compat toyH exParams exHist (Tr.init toyH exHist) exSchedB ∧
+    (run toyH exParams exHist (Tr.init toyH exHist) exSchedB).pending = [] ∧
+    (run toyH exParams exHist (Tr.init toyH exHist) exSchedB).dbRound = 4 ∧ 0 < exParams.lookback := by decide
+
+/-- … so `label_complete` yields the labels of both catchpoint rounds (2 and 4) for the schedule with crashes -/
+example : ∀ r, r = 2 ∨ r = 4 → ∃ s, (r, s) ∈ labels toyH exParams exHist exSchedB := by
+  intro r hr
+  have h := label_complete toyH exParams exHist (by decide) exSchedB (by decide) (by decide) r
+  rcases hr with rfl | rfl
+  · exact h (by decide) (by decide) (by decide)
+  · exact h (by decide) (by decide) (by decide)
+
+/-- a SPARSE schedule: one commit over rounds 1..4 covers the first-stage rounds 1 and 3 -/
+def exSchedSparse : List Ev :=
+  [.block, .block, .block, .block, .commit 4, .tick, .tick, .tick, .tick, .commit 4, .tick, .tick, .tick, .tick]
+
+/-- the compatibility hypothesis is needed: the sparse schedule is not compatible, finishes all its work at DB round 4, and — like
+the real tracker ("we skip earlier catchpoints if there is more than one to generate") — has no label for catchpoint round 2 -/
+example : ¬ Compat toyH exParams exHist (Tr.init toyH exHist) exSchedSparse ∧
+    (run toyH exParams exHist (Tr.init toyH exHist) exSchedSparse).pending = [] ∧
+    (run toyH exParams exHist (Tr.init toyH exHist) exSchedSparse).dbRound = 4 ∧
+    (labels toyH exParams exHist exSchedSparse).map Prod.fst = [4] := by decide
+
+/-- so is "tracking stays enabled": `exSchedC` (a lifetime without tracking that commits round 1) is not compatible and misses
+catchpoint round 2 by design -/
+example : ¬ Compat toyH exParams exHist (Tr.init toyH exHist) exSchedC ∧
+    (run toyH exParams exHist (Tr.init toyH exHist) exSchedC).pending = [] ∧
+    (run toyH exParams exHist (Tr.init toyH exHist) exSchedC).dbRound = 4 := by decide
 
 end Props.C14
